@@ -197,3 +197,572 @@ func dependsOnLoad(v ssa.Value, field *types.Var, seen map[ssa.Value]bool) bool 
 
 var _ = fmt.Sprintf
 var _ = strings.HasPrefix
+
+func init() {
+	alsoUnder(ruleC20Recorder, "C20")
+	alsoUnder(ruleC20AutoCause, "C20", "C06")
+	alsoUnder(ruleC08Sync, "C08", "C20")
+	alsoUnder(ruleC11ReloadArg, "C01")
+	alsoUnder(ruleC09Cancel, "C02")
+}
+
+// ---- C20.recorder ----
+// Statistics are recorded for whatever recorder the user attached: the constructor replaces the recorder only when none
+// is configured or when it is the package's own no-op type - decided by a type assertion to that concrete type, never by
+// an optional interface a user's recorder may satisfy by accident (method promotion through embedding).
+func ruleC20Recorder(cx *Ctx) {
+	const rule = "C20.recorder"
+	cx.R.Rule(rule, 1, "on the construction path every type assertion on the configured stats.Recorder asserts the concrete type *stats.NoopRecorder: whether statistics are recorded depends on nothing else about the user's recorder")
+	nc := cx.need(rule, "", "", "newCache")
+	if nc == nil {
+		return
+	}
+	n := 0
+	seen := map[*ssa.Function]bool{}
+	var visit func(fn *ssa.Function, depth int)
+	visit = func(fn *ssa.Function, depth int) {
+		fn = origin(fn)
+		if fn == nil || seen[fn] || depth > 4 || len(fn.Blocks) == 0 {
+			return
+		}
+		seen[fn] = true
+		withClosures(fn, func(f *ssa.Function) {
+			allInstrs(f, func(in ssa.Instruction) {
+				if ta, ok := in.(*ssa.TypeAssert); ok {
+					xt, _ := ta.X.Type().(*types.Named)
+					if xt == nil || xt.Obj().Name() != "Recorder" || xt.Obj().Pkg() == nil || !strings.HasSuffix(xt.Obj().Pkg().Path(), "/stats") {
+						return
+					}
+					if !flowsToStatsDecision(ta) {
+						return // an optional capability of the recorder (a snapshot source), not the decision to record
+					}
+					n++
+					okT := false
+					if pt, isPtr := ta.AssertedType.(*types.Pointer); isPtr {
+						if nt, isNamed := pt.Elem().(*types.Named); isNamed && nt.Obj().Name() == "NoopRecorder" {
+							okT = true
+						}
+					}
+					cx.R.Check(okT, rule, funcName(f), "recorder assertion", cx.P.where(in), "the configured recorder is compared with the concrete no-op type only (asserted: "+ta.AssertedType.String()+")")
+				}
+				if c := calleeOf(in); c != nil && c.Pkg != nil && c.Pkg.Pkg.Path() == modPath {
+					visit(c, depth+1)
+				}
+			})
+		})
+	}
+	visit(nc, 0)
+	if n == 0 {
+		// no assertion at all: every configured recorder is used (nothing to decide)
+		cx.R.OK(rule, funcName(nc), "recorder assertion", cx.P.Pos(nc.Pos()), "the constructor makes no type assertion on the recorder")
+	}
+}
+
+// ---- C20.autocause ----
+// Whoever removes an entry with the cause Overflow accounts it as an eviction: a function in which the constant
+// CauseOverflow is used (other than handing it back to its caller) reaches Recorder.RecordEviction.
+func ruleC20AutoCause(cx *Ctx) {
+	const rule = "C20.autocause"
+	cx.R.Rule(rule, 1, "every function of the cache that uses the cause Overflow (the constant as an operand; a helper that only returns it passes the duty to its callers) also records the eviction (Recorder.RecordEviction is reachable from it): there is no second removal path for size that the statistics do not see")
+	k := cx.P.Const("", "CauseOverflow")
+	if k == nil {
+		cx.R.Undecided(rule, "CauseOverflow", "anchor", "-", "constant CauseOverflow not found")
+		return
+	}
+	isOverflow := func(v ssa.Value) bool {
+		c, ok := v.(*ssa.Const)
+		if !ok || c.Value == nil {
+			return false
+		}
+		nt, isNamed := c.Type().(*types.Named)
+		return isNamed && nt.Obj().Name() == "DeletionCause" && c.Value.ExactString() == k.Val().ExactString()
+	}
+	isRecord := func(in ssa.Instruction) bool { return invokeName(in) == "RecordEviction" }
+	users := map[*ssa.Function]ssa.Instruction{}
+	onlyReturns := map[*ssa.Function]bool{}
+	for _, fn := range cx.P.FuncsOfPkg("") {
+		if fn.Signature.Recv() != nil {
+			if nt := namedTypeName(fn.Signature.Recv().Type()); nt == "DeletionCause" || nt == "DeletionEvent" {
+				continue // String / IsEviction / WasEvicted describe the causes
+			}
+		}
+		top := outermost(fn)
+		allInstrs(fn, func(in ssa.Instruction) {
+			var ops []*ssa.Value
+			for _, op := range in.Operands(ops) {
+				if op != nil && *op != nil && isOverflow(*op) {
+					if _, isRet := in.(*ssa.Return); isRet {
+						if _, used := users[top]; !used {
+							onlyReturns[top] = true
+						}
+						continue
+					}
+					users[top] = in
+					delete(onlyReturns, top)
+				}
+			}
+		})
+	}
+	// callers of helpers that only return the constant
+	for h := range onlyReturns {
+		for _, fn := range cx.P.FuncsOfPkg("") {
+			allInstrs(fn, func(in ssa.Instruction) {
+				if c := calleeOf(in); c != nil && origin(c) == h {
+					users[outermost(fn)] = in
+				}
+			})
+		}
+	}
+	n := 0
+	for fn, in := range users {
+		n++
+		ok, _ := reachesInstr(fn, isRecord, map[*ssa.Function]bool{}, nil)
+		cx.R.Check(ok, rule, funcName(fn), "a removal for size is recorded", cx.P.where(in), "the function uses CauseOverflow and reaches Recorder.RecordEviction")
+	}
+	if n == 0 {
+		cx.R.Undecided(rule, "cache", "uses of CauseOverflow", "-", "no function uses the constant CauseOverflow")
+	}
+}
+
+// ---- C08.sync ----
+// The loader runs on the stack of doCall / doBulkCall: the in-flight record is finished (waiters released, record
+// removed) by the deferred epilogue of that very activation, so it outlives the invocation. A loader started with `go`
+// keeps running after its record is gone, and the next Get starts an overlapping invocation.
+func ruleC08Sync(cx *Ctx) {
+	const rule = "C08.sync"
+	cx.R.Rule(rule, 2, "the load function handed to doCall / doBulkCall is never passed to, or captured by, a function started with a go statement (followed through helper parameters): the loader invocation does not outlive the in-flight record")
+	for _, m := range []string{"doCall", "doBulkCall"} {
+		fn := cx.need(rule, "", "group", m)
+		if fn == nil {
+			continue
+		}
+		var load *ssa.Parameter
+		for _, p := range fn.Params {
+			if sig, ok := p.Type().Underlying().(*types.Signature); ok && sig.Results().Len() == 2 && sig.Params().Len() == 2 {
+				load = p
+			}
+		}
+		if load == nil {
+			cx.R.Undecided(rule, funcName(fn), "load parameter", cx.P.Pos(fn.Pos()), "no parameter of type func(ctx, key(s)) (value(s), error)")
+			continue
+		}
+		bad := goCaptures(fn, load, 0, map[*ssa.Function]bool{})
+		cx.R.Check(bad == "", rule, funcName(fn), "loader invoked on this activation's stack", cx.P.Pos(fn.Pos()), "no go statement receives or captures the load function "+bad)
+	}
+}
+
+// goCaptures: a go statement in fn (or its closures, or helpers the value is handed to) starts a function that holds v.
+func goCaptures(fn *ssa.Function, v ssa.Value, depth int, seen map[*ssa.Function]bool) string {
+	if depth > 4 || seen[fn] {
+		return ""
+	}
+	seen[fn] = true
+	// values equal to v inside fn and its closures: v itself, free variables bound to it, cells it was spilled into
+	holds := map[ssa.Value]bool{v: true}
+	changed := true
+	for changed {
+		changed = false
+		withClosures(fn, func(f *ssa.Function) {
+			allInstrs(f, func(in ssa.Instruction) {
+				switch x := in.(type) {
+				case *ssa.MakeClosure:
+					cl, _ := x.Fn.(*ssa.Function)
+					for i, b := range x.Bindings {
+						if holds[b] {
+							if !holds[x] {
+								holds[x] = true
+								changed = true
+							}
+							if cl != nil && i < len(cl.FreeVars) && !holds[cl.FreeVars[i]] {
+								holds[cl.FreeVars[i]] = true
+								changed = true
+							}
+						}
+					}
+				case *ssa.Store:
+					if holds[x.Val] && !holds[x.Addr] {
+						holds[x.Addr] = true
+						changed = true
+					}
+				case *ssa.UnOp:
+					if holds[x.X] && !holds[x] {
+						holds[x] = true
+						changed = true
+					}
+				case *ssa.ChangeType:
+					if holds[x.X] && !holds[x] {
+						holds[x] = true
+						changed = true
+					}
+				case *ssa.Phi:
+					for _, e := range x.Edges {
+						if holds[e] && !holds[x] {
+							holds[x] = true
+							changed = true
+						}
+					}
+				}
+			})
+		})
+	}
+	bad := ""
+	withClosures(fn, func(f *ssa.Function) {
+		allInstrs(f, func(in ssa.Instruction) {
+			if g, ok := in.(*ssa.Go); ok {
+				if holds[g.Call.Value] {
+					bad = flowProg.Pos(g.Pos())
+				}
+				for _, a := range g.Call.Args {
+					if holds[a] {
+						bad = flowProg.Pos(g.Pos())
+					}
+				}
+				return
+			}
+			// handed to a helper of the module: follow the parameter
+			cc := callCommon(in)
+			if cc == nil {
+				return
+			}
+			c := calleeOf(in)
+			if c == nil || c.Pkg == nil || !strings.HasPrefix(c.Pkg.Pkg.Path(), modPath) {
+				return
+			}
+			oc := origin(c)
+			args := cc.Args
+			for i, a := range args {
+				if holds[a] && i < len(oc.Params) {
+					if w := goCaptures(oc, oc.Params[i], depth+1, seen); w != "" {
+						bad = w
+					}
+				}
+			}
+		})
+	})
+	return bad
+}
+
+// flowsToStatsDecision: the outcome of the assertion is data the withStats flag or the stored recorder is computed from.
+func flowsToStatsDecision(ta *ssa.TypeAssert) bool {
+	seen := map[ssa.Value]bool{}
+	work := []ssa.Value{ta}
+	for len(work) > 0 {
+		v := work[len(work)-1]
+		work = work[:len(work)-1]
+		if seen[v] {
+			continue
+		}
+		seen[v] = true
+		refs := v.Referrers()
+		if refs == nil {
+			continue
+		}
+		for _, r := range *refs {
+			switch x := r.(type) {
+			case *ssa.Store:
+				if x.Val != v {
+					continue
+				}
+				if f := fieldOf(x.Addr); f != nil && (fname(f) == "withStats" || fname(f) == "stats") {
+					return true
+				}
+				if a, ok := x.Addr.(*ssa.Alloc); ok {
+					work = append(work, a)
+				}
+			case ssa.Value:
+				if _, isCall := x.(*ssa.Call); isCall {
+					// only a call ON the asserted value (d.DiscardsStats()) or with it as argument carries the outcome
+				}
+				work = append(work, x)
+			}
+		}
+	}
+	return false
+}
+
+func init() {
+	alsoUnder(ruleC16Direct, "C16", "C05", "C06", "C13")
+	alsoUnder(ruleC01Step, "C07", "C15")
+	alsoUnder(ruleC12SatOnly, "C13")
+	alsoUnder(ruleC10Distribute, "C09")
+	alsoUnder(ruleC05RunTask, "C14")
+	alsoUnder(ruleC09Install, "C09")
+}
+
+func ruleC12SatOnly(cx *Ctx) { ruleC12Hooks(cx) }
+
+// ---- C16.direct ----
+// Events of one key reach the policies in the order they were produced. A task that does not travel through the write
+// buffer (the writer's own task when the buffer is full, a delete applied under the lock) is therefore run only after
+// everything buffered before it has been replayed: every direct runTask is dominated, in its function or in every
+// caller of it, by a step that drains the write buffer.
+func ruleC16Direct(cx *Ctx) {
+	const rule = "C16.direct"
+	cx.R.Rule(rule, 2, "every call of runTask on a task that was not just popped from the write buffer is preceded on all paths - in the same function or, failing that, at every call site of that function, with constant boolean arguments matched against the guards of the site - by a step that pops the write buffer: a newer event never overtakes the buffered older events of its key")
+	rt := cx.need(rule, "", "cache", "runTask")
+	tryPop := cx.need(rule, queuePkg, "MPSC", "TryPop")
+	if rt == nil || tryPop == nil {
+		return
+	}
+	pops := func(in ssa.Instruction) bool { return isCallTo(in, tryPop) }
+	// flags: configuration flags known (with their value) on the way to the task being run; a draining step guarded
+	// only by such flags counts as preceding the site when the test itself does
+	flagGuards := func(b *ssa.BasicBlock) map[string]bool {
+		out := map[string]bool{}
+		for _, g := range guardsAt(b) {
+			if f := fieldOf(g.Cond); f != nil && strings.HasPrefix(fname(f), "with") {
+				out[fname(f)] = g.Truth
+			}
+		}
+		return out
+	}
+	drainsBefore := func(site ssa.Instruction, flags map[string]bool) bool {
+		fn := site.Parent()
+		found := false
+		siteGuards := map[ssa.Value]bool{}
+		for _, g := range guardsAt(site.Block()) {
+			siteGuards[g.Cond] = true
+		}
+		allInstrs(fn, func(in ssa.Instruction) {
+			if in == site || found {
+				return
+			}
+			d := pops(in)
+			if c := calleeOf(in); !d && c != nil && c.Pkg != nil && strings.HasPrefix(c.Pkg.Pkg.Path(), modPath) && origin(c) != origin(rt) {
+				d, _ = reachesInstr(c, pops, map[*ssa.Function]bool{}, nil)
+			}
+			if !d {
+				return
+			}
+			if instrDominates(in, site) {
+				found = true
+				return
+			}
+			// guarded by known flags only, and every such test precedes the site
+			ok := true
+			for _, g := range guardsAt(in.Block()) {
+				if siteGuards[g.Cond] {
+					continue
+				}
+				f := fieldOf(g.Cond)
+				if f == nil {
+					ok = false
+					break
+				}
+				v, known := flags[fname(f)]
+				if !known || v != g.Truth {
+					ok = false
+					break
+				}
+				dom := false
+				for _, b := range fn.Blocks {
+					if len(b.Instrs) == 0 {
+						continue
+					}
+					if i, isIf := b.Instrs[len(b.Instrs)-1].(*ssa.If); isIf && i.Cond == g.Cond && instrDominates(i, site) {
+						dom = true
+					}
+				}
+				if !dom {
+					ok = false
+					break
+				}
+			}
+			if ok && blockReaches(in.Block(), site.Block()) {
+				found = true
+			}
+		})
+		return found
+	}
+	// call sites of a function inside the root package
+	sitesOf := func(f *ssa.Function) []ssa.Instruction {
+		var out []ssa.Instruction
+		for _, g := range cx.P.FuncsOfPkg("") {
+			allInstrs(g, func(in ssa.Instruction) {
+				if c := calleeOf(in); c != nil && origin(c) == origin(f) {
+					out = append(out, in)
+				}
+			})
+		}
+		return out
+	}
+	var ordered func(site ssa.Instruction, depth int, seen map[ssa.Instruction]bool, flags map[string]bool) (bool, string)
+	ordered = func(site ssa.Instruction, depth int, seen map[ssa.Instruction]bool, flags map[string]bool) (bool, string) {
+		if seen[site] {
+			return true, ""
+		}
+		seen[site] = true
+		fl := map[string]bool{}
+		for k, v := range flags {
+			fl[k] = v
+		}
+		for k, v := range flagGuards(site.Block()) {
+			fl[k] = v
+		}
+		flags = fl
+		if drainsBefore(site, flags) {
+			return true, ""
+		}
+		fn := origin(site.Parent())
+		if depth > 5 {
+			return false, "call chain too deep at " + funcName(fn)
+		}
+		if par := fn.Parent(); par != nil {
+			// a closure: judged where its parent hands it on (the closure runs no earlier than that)
+			var use ssa.Instruction
+			allInstrs(par, func(in ssa.Instruction) {
+				mc, ok := in.(*ssa.MakeClosure)
+				if !ok || mc.Fn != ssa.Value(site.Parent()) && origin(mc.Fn.(*ssa.Function)) != fn {
+					return
+				}
+				use = in
+				for _, r := range *mc.Referrers() {
+					if _, isCall := r.(ssa.CallInstruction); isCall {
+						use = r
+					}
+				}
+			})
+			if use == nil {
+				return false, "in closure " + funcName(fn) + " no draining step precedes " + cx.P.where(site)
+			}
+			return ordered(use, depth+1, seen, flags)
+		}
+		// constant boolean parameters the site is guarded by
+		type bg struct {
+			idx   int
+			truth bool
+		}
+		var guards []bg
+		for _, g := range guardsAt(site.Block()) {
+			if i := paramIndexOf(g.Cond); i >= 0 {
+				if b, ok := g.Cond.Type().Underlying().(*types.Basic); ok && b.Info()&types.IsBoolean != 0 {
+					guards = append(guards, bg{i, g.Truth})
+				}
+			}
+		}
+		callers := sitesOf(fn)
+		if len(callers) == 0 {
+			return false, funcName(fn) + " runs the task at " + cx.P.where(site) + " and nothing drains the write buffer before it"
+		}
+		for _, cs := range callers {
+			args := callCommon(cs).Args // raw operands: the receiver is parameter 0, as for paramIndexOf
+			skip := false
+			for _, g := range guards {
+				if g.idx < len(args) {
+					if k, ok := args[g.idx].(*ssa.Const); ok && k.Value != nil && (k.Value.ExactString() == "true") != g.truth {
+						skip = true // this caller never takes the branch of the site
+					}
+				}
+			}
+			if skip {
+				continue
+			}
+			if ok, why := ordered(cs, depth+1, seen, flags); !ok {
+				return false, why
+			}
+		}
+		return true, ""
+	}
+	n := 0
+	for _, fn := range cx.P.FuncsOfPkg("") {
+		allInstrs(fn, func(in ssa.Instruction) {
+			if !isCallTo(in, rt) {
+				return
+			}
+			args := callArgs(in)
+			arg := args[len(args)-1]
+			// a task taken out of the buffer by this function is the drain itself
+			popped := false
+			var fromPop func(v ssa.Value, d int) bool
+			fromPop = func(v ssa.Value, d int) bool {
+				if d > 4 {
+					return false
+				}
+				switch x := v.(type) {
+				case *ssa.Call:
+					return isCallTo(x, tryPop)
+				case *ssa.Phi:
+					for _, e := range x.Edges {
+						if !fromPop(e, d+1) {
+							return false
+						}
+					}
+					return len(x.Edges) > 0
+				}
+				return false
+			}
+			popped = fromPop(arg, 0)
+			if popped {
+				return
+			}
+			n++
+			ok, why := ordered(in, 0, map[ssa.Instruction]bool{}, nil)
+			cx.R.Check(ok, rule, funcName(fn), "direct task after the drain", cx.P.where(in), "the write buffer is drained before a task that bypasses it is run "+why)
+		})
+	}
+	if n == 0 {
+		cx.R.Undecided(rule, "cache", "direct runTask sites", "-", "no direct runTask call found")
+	}
+}
+
+// ---- C09.install ----
+// The value a load produced reaches the table only through the guarded installer: the `value` field of a call record
+// is never handed to a write operation of the cache (set / atomicSet / Set* / Compute* / node creation) outside
+// afterDeleteCall, whose computation installs it only for the record that is still registered.
+func ruleC09Install(cx *Ctx) {
+	const rule = "C09.install"
+	cx.R.Rule(rule, 1, "a loaded value (field value of a call record) is an argument of a table write (cache.set, atomicSet, Set, SetIfAbsent, Compute*, Manager.Create) only inside the installer afterDeleteCall and the helpers only it calls: no second install path bypasses the 'is this still the registered load' test")
+	val := cx.needField(rule, "", "call", "value")
+	inst := cx.need(rule, "", "cache", "afterDeleteCall")
+	if val == nil || inst == nil {
+		return
+	}
+	writers := map[string]bool{"set": true, "atomicSet": true, "Set": true, "SetIfAbsent": true, "Compute": true, "ComputeIfAbsent": true, "ComputeIfPresent": true, "doCompute": true, "newNode": true, "Create": true}
+	// functions reachable only from the installer
+	onlyInst := map[*ssa.Function]bool{origin(inst): true}
+	withClosures(inst, func(f *ssa.Function) { onlyInst[f] = true })
+	for changed := true; changed; {
+		changed = false
+		for _, fn := range cx.P.FuncsOfPkg("") {
+			if onlyInst[fn] || fn.Parent() != nil {
+				continue
+			}
+			callers, all := 0, true
+			for _, g := range cx.P.FuncsOfPkg("") {
+				allInstrs(g, func(in ssa.Instruction) {
+					if c := calleeOf(in); c != nil && origin(c) == origin(fn) {
+						callers++
+						if !onlyInst[g] && !onlyInst[outermost(g)] {
+							all = false
+						}
+					}
+				})
+			}
+			if callers > 0 && all {
+				onlyInst[fn] = true
+				withClosures(fn, func(f *ssa.Function) { onlyInst[f] = true })
+				changed = true
+			}
+		}
+	}
+	n := 0
+	for _, fn := range cx.P.FuncsOfPkg("") {
+		allInstrs(fn, func(in ssa.Instruction) {
+			cc := callCommon(in)
+			c := calleeOf(in)
+			if cc == nil || c == nil || !writers[origin(c).Name()] {
+				return
+			}
+			for _, a := range cc.Args {
+				if f := fieldOf(a); f != nil && sameField(f, val) && ownerName(fieldOwnerOfValue(a)) == "call" {
+					n++
+					okIn := onlyInst[fn] || onlyInst[outermost(fn)]
+					cx.R.Check(okIn, rule, funcName(fn), "loaded value written by the installer only", cx.P.where(in), "the record's value is handed to "+origin(c).Name()+" inside afterDeleteCall (guarded by the registration test) and nowhere else")
+				}
+			}
+		})
+	}
+	if n == 0 {
+		cx.R.Undecided(rule, funcName(inst), "install site", cx.P.Pos(inst.Pos()), "no table write takes the record's value")
+	}
+}
